@@ -185,7 +185,7 @@ impl<'a> Lexer<'a> {
         let mut escaped = false;
         loop {
             match self.s.eat() {
-                Some('\\') => escaped = true,
+                Some('\\') if !escaped => escaped = true,
                 Some('"') if !escaped => break,
                 Some('\r') | Some('\n') => return self.error("End of line in string literal"),
                 None => return self.error("End of file in string literal"),
